@@ -10,6 +10,7 @@ import (
 func init() {
 	f := "internal/wat/watutil/wat2c/wat2c_func.go"
 	register(&Property{ID: "C03", Run: runC03, Mutants: []Mutant{
+		{Name: "epilogue chosen from the last instruction visited", File: f, Old: "\tvar lastTok token.Token\n\tif n := len(fn.Body.List); n > 0 {\n\t\tlastTok = fn.Body.List[n-1].Token()\n\t}\n\tswitch tok := lastTok; tok {", New: "\tswitch tok := stk.LastInstruction().Token(); tok {", Expect: "epilogue-on-top-level-last"},
 		{Name: "memory.grow tests size+delta in int32 arithmetic", File: f, Old: "fmt.Fprintf(w, \"%sif((uint32_t)R%d.i32 <= (uint32_t)(%s_memory_init_max_pages-%s_memory_size)) {\\n\",\n\t\t\tindent, sp0, p.opt.Prefix, p.opt.Prefix,", New: "fmt.Fprintf(w, \"%sif(%s_memory_size+R%d.i32 <= %s_memory_init_max_pages) {\\n\",\n\t\t\tindent, p.opt.Prefix, sp0, p.opt.Prefix,", Expect: "c-memory-grow-no-wrap"},
 		{Name: "memory.grow compares the delta signed", File: f, Old: "if((uint32_t)R%d.i32 <= (uint32_t)(%s_memory_init_max_pages-%s_memory_size)) {", New: "if(R%d.i32 <= (%s_memory_init_max_pages-%s_memory_size)) {", Expect: "c-memory-grow-no-wrap"},
 		{Name: "implicit return pops the results first to last", File: f, Old: "\t\t\tfor i := len(fn.Type.Results) - 1; i >= 0; i-- {\n\t\t\t\txType := fn.Type.Results[i]\n\t\t\t\tspi := stk.Pop(xType)", New: "\t\t\tfor i, xType := range fn.Type.Results {\n\t\t\t\tspi := stk.Pop(xType)", Expect: "list-stack-order :: wat2cWorker.buildFunc_body"},
@@ -119,6 +120,7 @@ func runC03(c *Ctx) {
 	c03MemoryGrow(c, p, by)
 	c03UnionMembers(c, p, pk)
 	c03IndexLoops(c, p, pk, 14)
+	c03EpilogueDecision(c, p, pk)
 	c.Min("float-literal-exact", "float values written into the generated C code", floatLiteralExact(c, p, pk, []string{"//"}, ""), 6)
 	c03Prelude(c)
 	var names []string
